@@ -8,8 +8,9 @@
    token was issued by its own VersionManager (TokenCache::get_*_token_for).
 
    Each VersionManager operation is the sequential summary of the access sequence modelled step
-   by step in Model.v (ProofsSeq.v proves that a thread running alone under Model.step computes
-   exactly these summaries).  Definitions only. *)
+   by step in Model.v (ProofsSolo.v proves that a thread running alone under Model.tstep computes
+   exactly these summaries: solo_acquire_refines, solo_release_refines).  `fx` as in Model.v:
+   false = pinned tree (raw manager pointer in the token, unfiltered cache).  Definitions only. *)
 From ZV.Common Require Import Base Run.
 From ZV.C16 Require Import Model.
 Open Scope N_scope.
